@@ -914,7 +914,8 @@ theorem generate_lex (hE : Lawful E) (hF : FloatOK X.fmt) (hM : ModsOK X.mods) (
     (s s' : σ) (r : Result) (h : generate E X c s = .ok (r, s'))
     (hlen : (r.instrs.flatMap Enc.encode).length < 18446744073709551616) :
     ∃ hdr : List Instr, hdr.length ≤ 2 ∧ Lex.lex r.bytes = .ok (hdr ++ r.instrs) ∧
-      ∀ i ∈ hdr ++ r.instrs, domainOk i = true := by
+      (∀ i ∈ hdr ++ r.instrs, domainOk i = true) ∧
+      hdr = header c.version (if r.framed then some (r.instrs.flatMap Enc.encode).length else none) := by
   obtain ⟨⟨n, g, s2, s3, hb, hi⟩, hbytes⟩ := generate_shape E X c s s' r h
   have hbody := bodyLoop_fine E X c hE hF hM n { sim := initState c.version } g s2 s3
     (by simp [initState]) (by simp) hb
@@ -954,7 +955,10 @@ theorem generate_lex (hE : Lawful E) (hF : FloatOK X.fmt) (hM : ModsOK X.mods) (
   have hl := lex_encode (hdr ++ pre) (fun i hi' => (hfine i hi').1.1) (fun i hi' => (hfine i hi').2)
   have hinstrs : hdr ++ r.instrs = (hdr ++ pre) ++ [stopI] := by
     rw [hi]; simp [pre, stopI, stopInstr, List.append_assoc]
-  refine ⟨hdr, ?_, ?_, ?_⟩
+  refine ⟨hdr, ?_, ?_, ?_, ?_⟩
+  rotate_left 3
+  · simp only [hdr, header]
+    cases r.framed <;> simp
   · simp only [hdr, List.length_append]
     have a1 : (if c.version ≥ 2 then [protoInstr c.version] else []).length ≤ 1 := by split <;> simp
     have a2 : (if r.framed then [(⟨.frame, .nat (r.instrs.flatMap Enc.encode).length⟩ : Instr)] else []).length ≤ 1 := by
@@ -972,7 +976,7 @@ theorem generate_wf (hE : Lawful E) (hF : FloatOK X.fmt) (hM : ModsOK X.mods) (h
     (s s' : σ) (r : Result) (h : generate E X c s = .ok (r, s'))
     (hlen : (r.instrs.flatMap Enc.encode).length < 18446744073709551616) :
     Spec.wellFormed r.bytes = true := by
-  obtain ⟨hdr, _, hl, hd⟩ := generate_lex E X c hE hF hM hv s s' r h hlen
+  obtain ⟨hdr, _, hl, hd, _⟩ := generate_lex E X c hE hF hM hv s s' r h hlen
   unfold Spec.wellFormed
   rw [hl]
   simp only [List.all_eq_true]
